@@ -53,7 +53,7 @@ pub fn judge(c: &Case) -> Judged {
 }
 
 pub fn cases_for(ctx: &Ctx) -> (Vec<Case>, u32) {
-    let bound = if ctx.tier.thorough() { 2 } else { 1 };
+    let bound = if ctx.tier.thorough() { 3 } else { 2 };
     (gram::generate(bound), bound)
 }
 
@@ -74,6 +74,12 @@ impl Attribution {
     }
     pub fn relaxed() -> Attribution {
         Attribution { roots: vec![], relaxed: true }
+    }
+    /// Key of a recorded failure of the same family whose labels are a subset of `labels` and which has the signature `sig`.
+    pub fn find_root(&self, group: &str, labels: &[String], sig: &str) -> Option<String> {
+        let family = group.split('.').next().unwrap_or(group);
+        let lset: BTreeSet<String> = labels.iter().cloned().collect();
+        self.roots.iter().find(|(f, rl, rs, _, raw_n)| f == family && rl.is_subset(&lset) && *raw_n < labels.len() && rs.contains(sig)).map(|r| r.3.clone())
     }
     /// Returns the key to report for this failing case (an existing root key or a new one).
     pub fn key_for(&mut self, group: &str, labels: &[String], sigs: &BTreeSet<String>) -> String {
@@ -166,8 +172,7 @@ pub fn run(ctx: &mut Ctx) {
 
 pub fn replay(case: &Value) -> Result<String, String> {
     let id = case["case"].as_str().ok_or("case")?;
-    let cases = gram::generate(2);
-    let c = cases.iter().find(|c| c.id() == id).ok_or("case id is not in the enumerated space any more")?;
+    let c = &gram::find_case(id).ok_or("case id is not in the enumerated space any more")?;
     let j = judge(c);
     if j.sigs.is_empty() {
         Ok(format!("faithful: {}", crate::util::short(&c.text(), 120)))
